@@ -171,3 +171,86 @@ fn c02_bitset_full_65() {
 fn c02_bitset_full_130() {
     bitset_full::<130>();
 }
+
+// ---------------------------------------------------------------------------------------------
+// C03: summaries used by the mirbv obligation M03-1 (bound transformations of range queries)
+// ---------------------------------------------------------------------------------------------
+
+/// the i64 -> u64 order-preserving map is exactly `(x as u64) ^ 2^63`, and its inverse undoes it
+#[kani::proof]
+fn c03_i64_to_u64_definition() {
+    let x: i64 = kani::any();
+    assert_eq!(crate::i64_to_u64(x), (x as u64) ^ (1u64 << 63));
+    assert_eq!(crate::u64_to_i64(crate::i64_to_u64(x)), x);
+    kani::cover!(x < 0);
+}
+
+fn any_bound(v: i64) -> std::ops::Bound<i64> {
+    let k: u8 = kani::any();
+    kani::assume(k < 3);
+    match k {
+        0 => std::ops::Bound::Included(v),
+        1 => std::ops::Bound::Excluded(v),
+        _ => std::ops::Bound::Unbounded,
+    }
+}
+
+/// `transform_bound_inner` / `BoundsRange::transform_inner` / `map_bound`: the closure is applied
+/// to the inner value; `Existing(y)` keeps the bound kind, `NewBound(b)` replaces the bound,
+/// `Unbounded` stays
+#[kani::proof]
+fn c03_transform_bound_inner_model() {
+    use std::ops::Bound;
+
+    use crate::bounds::{map_bound, transform_bound_inner, BoundsRange, TransformBound};
+    let v: i64 = kani::any();
+    let b = any_bound(v);
+    let y: u64 = kani::any();
+    let nb_kind: u8 = kani::any();
+    let use_new: bool = kani::any();
+    kani::assume(nb_kind < 3);
+    let f = |x: &i64| -> TransformBound<u64> {
+        assert_eq!(*x, v);
+        if use_new {
+            TransformBound::NewBound(match nb_kind {
+                0 => Bound::Included(y),
+                1 => Bound::Excluded(y),
+                _ => Bound::Unbounded,
+            })
+        } else {
+            TransformBound::Existing(y)
+        }
+    };
+    let out = transform_bound_inner(&b, f);
+    let expected = match (&b, use_new) {
+        (Bound::Unbounded, _) => Bound::Unbounded,
+        (_, true) => match nb_kind {
+            0 => Bound::Included(y),
+            1 => Bound::Excluded(y),
+            _ => Bound::Unbounded,
+        },
+        (Bound::Included(_), false) => Bound::Included(y),
+        (Bound::Excluded(_), false) => Bound::Excluded(y),
+    };
+    assert_eq!(out, expected);
+    // the two sides of a BoundsRange are transformed independently, each by its own closure
+    let r = BoundsRange::new(b, any_bound(v));
+    let upper_in = r.upper_bound;
+    let r2 = r.transform_inner(f, |x: &i64| TransformBound::Existing((*x as u64).wrapping_add(1)));
+    assert_eq!(r2.lower_bound, expected);
+    let exp_upper = match upper_in {
+        Bound::Included(_) => Bound::Included((v as u64).wrapping_add(1)),
+        Bound::Excluded(_) => Bound::Excluded((v as u64).wrapping_add(1)),
+        Bound::Unbounded => Bound::Unbounded,
+    };
+    assert_eq!(r2.upper_bound, exp_upper);
+    // map_bound keeps the kind
+    let mb = map_bound(&b, |x: &i64| (*x as u64) ^ 7);
+    let exp_mb = match b {
+        Bound::Included(_) => Bound::Included((v as u64) ^ 7),
+        Bound::Excluded(_) => Bound::Excluded((v as u64) ^ 7),
+        Bound::Unbounded => Bound::Unbounded,
+    };
+    assert_eq!(mb, exp_mb);
+    kani::cover!(use_new && nb_kind == 2);
+}
